@@ -240,6 +240,11 @@ def setterRef (s : List Char) : Option (List Char) :=
 that with the stored reference. -/
 def getterRef (s : List Char) : Option (List Char) := setterRef (s.map toUpper)
 
+/-- what every API taking a cell name does first (`mergeCellsParser`, or a direct
+`CellNameToCoordinates` which is case-insensitive): ASCII upper-casing, decoding,
+canonical re-encoding. `none` = the API returns an error. -/
+def apiRef (s : List Char) : Option (List Char) := getterRef s
+
 /-- does a getter called with spelling `s` find what a setter called with `s`
 wrote?  `none` = the spelling is rejected by the setter or by the getter. -/
 def getterFinds (s : List Char) : Option Bool :=
